@@ -635,6 +635,8 @@ pub enum ConcProfile {
     /// a few short-lived TTL keys that are expired, deleted, re-put and re-TTL'd by several threads while the sweeper is
     /// slowed down between its steps (weight release, store removal) and a clock thread keeps expiring keys
     SweepRace,
+    /// readers through the borrowing read API on hot keys of a full cache while a writer keeps evicting cold keys
+    ReadersVsEviction,
     /// SweepRace plus one thread that is the only writer of four private keys and keeps giving them a TTL and taking it away
     TtlOwner,
     /// tiny programs (2-3 client threads, 2-7 operations each, 1-2 keys, TTLs, clock moves as program steps) executed
@@ -659,7 +661,7 @@ fn cop_strategy(profile: ConcProfile, max_key: u8) -> BoxedStrategy<COp> {
         ConcProfile::Reads => prop_oneof![1 => put, 30 => read, 1 => hold].boxed(),
         ConcProfile::Deadlock => prop_oneof![5 => put, 6 => upsert, 3 => delete, 6 => read, 2 => hold, 1 => Just(COp::AwaitAll)].boxed(),
         ConcProfile::Bursts => prop_oneof![6 => put, 2 => upsert, 4 => delete, 1 => read, 2 => (40u8..120).prop_map(|k| COp::Forget { k })].boxed(),
-        ConcProfile::DeleteWindow | ConcProfile::EvictVsSweep | ConcProfile::PutContention | ConcProfile::TightFit | ConcProfile::SweepRace | ConcProfile::TtlOwner | ConcProfile::Sched => prop_oneof![6 => put, 2 => upsert, 4 => delete, 1 => read].boxed(),
+        ConcProfile::DeleteWindow | ConcProfile::EvictVsSweep | ConcProfile::PutContention | ConcProfile::TightFit | ConcProfile::SweepRace | ConcProfile::TtlOwner | ConcProfile::ReadersVsEviction | ConcProfile::Sched => prop_oneof![6 => put, 2 => upsert, 4 => delete, 1 => read].boxed(),
     }
 }
 
@@ -791,6 +793,39 @@ fn ttl_owner_strategy(thorough: bool) -> BoxedStrategy<ConcCase> {
     }).boxed()
 }
 
+/// A full cache of three hot keys (read all the time through get_ref / map_get_ref, which record the access while they
+/// hold the store guard) and two cold ones; a writer keeps putting fresh cold keys, each of which evicts an older cold
+/// key: the eviction loop (sketch estimates, weight lock, store removal) runs against readers that keep the access
+/// pipeline (pool of 1 buffer of 1, hand-over channel, consumer, sketch lock) saturated.
+fn readers_vs_eviction_strategy(thorough: bool) -> BoxedStrategy<ConcCase> {
+    let hot = 0u8..3;
+    let reader_op = prop_oneof![
+        4 => (hot.clone(), 0u16..40).prop_map(|(k, micros)| COp::HoldRef { k, micros }),
+        4 => (prop_oneof![Just(ReadKind::GetRef), Just(ReadKind::MapGetRef), Just(ReadKind::Get)], hot.clone()).prop_map(|(kind, k)| COp::Read { kind, keys: vec![k] }),
+        1 => (1u8..3).prop_map(COp::Pause),
+    ];
+    let readers = prop::collection::vec(prop::collection::vec(reader_op, 30..=(if thorough { 200 } else { 90 })), 2..=4);
+    let writer = (prop::collection::vec((20u8..120, any::<bool>()), 10..=(if thorough { 80 } else { 35 }))).prop_map(|fresh| {
+        // keys 0..=2 hot, 5 and 6 cold (same weight class as the fresh ones: k % 5 == 0 -> weight 8)
+        let mut ops: Vec<COp> = (0u8..3).map(|k| COp::Put { k, extra: 0, explicit: true, ttl: None, wait: true }).collect();
+        ops.push(COp::Put { k: 5, extra: 0, explicit: true, ttl: None, wait: true });
+        ops.push(COp::Put { k: 10, extra: 0, explicit: true, ttl: None, wait: true });
+        for (k, wait) in fresh { ops.push(COp::Put { k: k - k % 5, extra: 0, explicit: true, ttl: None, wait }); }
+        ops
+    });
+    let delay = prop_oneof![(50u16..500).prop_map(Delay::SleepUs), (1u8..4).prop_map(Delay::Yield), (100u16..3000).prop_map(Delay::Spin)];
+    let site = prop_oneof![Just(Site::CreateSpaceLoop as u8), Just(Site::CacheWeightDeleteInLock as u8), Just(Site::CacheWeightDeleteAfterRemove as u8), Just(Site::PoolAdd as u8), Just(Site::ConsumerLoop as u8), Just(Site::ReadAfterStore as u8), Just(Site::WorkerAfterDequeue as u8)];
+    let injection = (prop::collection::vec((site, 40u8..=255, delay), 1..=4), any::<u64>()).prop_map(|(sites, seed)| Injection { sites, seed: seed | 1 });
+    // weights: keys 0,1,2 -> 8,11,14; cold keys 8 each: 33 + 16 = 49: the cache is exactly full with five keys
+    let cfg = (prop_oneof![Just(1usize), Just(2)], prop_oneof![Just(HashMode::Identity), Just(HashMode::Default)], prop_oneof![Just(49i64), Just(52)])
+        .prop_map(|(cmd_buf, hash, max_weight)| Cfg { counters: 1000, capacity: 16, max_weight, shards: 2, cmd_buf, pool: 1, buf: 1, tick_us: 1000, hash, weight_mode: WeightMode::Table(vec![8, 11, 14, 17, 20]), start_ns: 0, noise_readers: 0, prelude: None });
+    (cfg, writer, readers, injection).prop_map(|(cfg, writer, readers, injection)| {
+        let mut threads = vec![writer];
+        threads.extend(readers);
+        ConcCase { cfg, threads, injection, clock: Vec::new(), monitor: false, consumer: ConsumerMode::Free, sched: None }
+    }).boxed()
+}
+
 fn sched_strategy(thorough: bool) -> BoxedStrategy<ConcCase> {
     let key = prop_oneof![3 => Just(0u8), 1 => Just(1u8)];
     let ttl = prop_oneof![2 => Just(None), 2 => (0u32..=2).prop_map(|s| Some(TtlSel::Secs(s))), 1 => (200u32..=900).prop_map(|m| Some(TtlSel::Millis(m)))];
@@ -852,6 +887,7 @@ pub fn conc_case_strategy(profile: ConcProfile, thorough: bool) -> BoxedStrategy
     if profile == ConcProfile::TightFit { return tight_fit_strategy(thorough); }
     if profile == ConcProfile::SweepRace { return sweep_race_strategy(thorough); }
     if profile == ConcProfile::TtlOwner { return ttl_owner_strategy(thorough); }
+    if profile == ConcProfile::ReadersVsEviction { return readers_vs_eviction_strategy(thorough); }
     if profile == ConcProfile::Sched { return sched_strategy(thorough); }
     if profile == ConcProfile::PutContention { return put_contention_strategy(thorough); }
     if profile == ConcProfile::DeleteWindow { return delete_window_strategy(thorough); }
